@@ -351,3 +351,50 @@ Proof.
   - intros b. exact (FlusherFacts.fl_batch_bound th ops b).
 Qed.
 Print Assumptions C05_batches_are_maximal_and_bounded.
+
+(** *** The physical batches of a commit, byte for byte (PhysCommit.v / PhysCommitFacts.v).
+    [commit_bops] is the stream of keys and values SaveVersion hands to the batch (compared with
+    the real library by [wsave]: sizes, cut points, MD5 of the bytes); [img r st] is the byte image
+    of the whole database of FastLife state [st].  For EVERY flush threshold the batches, applied
+    in order, turn the image of the state before the commit into the image of the state after it;
+    after any number of them the database is the image plus a prefix of the stream ending at a
+    computed cut position; a prefix that contains the index part is the image of the store after
+    the corresponding prefix of [Store.commit_ops] - the list [CrashFacts] classifies. *)
+From IAVL Require Import Store StoreFacts PruneAlgo FastLife DbImage DbImageFacts PhysCommit PhysCommitFacts.
+From IAVL Require PruneAlgoFacts6 PruneAlgoFacts10.
+
+Theorem C05_commit_batches_produce_the_new_image :
+  forall (H : bytes -> bytes) (th : Z) (r : list Z) (st : fstate),
+    store_ok H (ms st) ->
+    PruneAlgoFacts6.rekey_ok r (forest (ms st)) ->
+    store_okb (phys_of r (forest (ms st))) = true ->
+    store_okb (phys_of r (forest (ms (fst (fstep H st FSave))))) = true ->
+    version_exists (ms st) (working_version (ms st)) = false ->
+    Flusher.kv_apply_batches (img r st) (commit_batches H th st) =
+    img r (fst (fstep H st FSave)).
+Proof. exact commit_batches_apply. Qed.
+Print Assumptions C05_commit_batches_produce_the_new_image.
+
+Theorem C05_commit_crash_images :
+  forall (H : bytes -> bytes) (th : Z) (r : list Z) (st : fstate) (i : nat),
+    exists n : nat,
+      In n (0%nat :: Flusher.cut_positions th (commit_bops H st) ++ [length (commit_bops H st)]) /\
+      Flusher.kv_apply_batches (img r st) (firstn i (commit_batches H th st)) =
+      Flusher.kv_apply_ops (img r st) (firstn n (commit_bops H st)).
+Proof. exact commit_crash_images. Qed.
+Print Assumptions C05_commit_crash_images.
+
+Theorem C05_commit_prefix_is_the_image_of_a_store_prefix :
+  forall (H : bytes -> bytes) (r : list Z) (st : fstate) (n : nat),
+    store_ok H (ms st) ->
+    PruneAlgoFacts6.rekey_ok r (forest (ms st)) ->
+    store_okb (phys_of r (forest (ms st))) = true ->
+    store_okb (phys_of r (forest (ms (fst (fstep H st FSave))))) = true ->
+    version_exists (ms st) (working_version (ms st)) = false ->
+    Flusher.kv_apply_ops (img r st)
+      (firstn (length (commit_fast_bops st) + n) (commit_bops H st)) =
+    encode_image
+      (sapply_all (phys_of r (forest (ms st))) (firstn n (Store.commit_ops H false (ms st))))
+      (fidx (fst (fstep H st FSave))) (dlabel (fst (fstep H st FSave))).
+Proof. exact commit_prefix_image. Qed.
+Print Assumptions C05_commit_prefix_is_the_image_of_a_store_prefix.
